@@ -1,3 +1,316 @@
-import Lomond.Model.Core
+/-
+  C07 — every connection attempt yields a well-formed, finite event sequence.
+  Property theorems only (helper lemmas: Proofs/Monitor.lean, MonitorList.lean, Raises.lean,
+  EnvIrrel.lean, Terminate.lean, RunAll.lean).
+
+  The monitor automaton of the property text is `Core.Mon.step` (Proofs/Monitor.lean):
+
+      start ──Connecting──▶ connecting ──ConnectFail──▶ done
+                                │
+                                └─Connected──▶ connected ──Ready──▶ ready ──Unresponsive──▶ unresp
+                                                  │  ▲ Rejected,           │ ▲ Text, Binary, Ping,       │
+                                                  │  └ ProtocolError       │ └ Pong, Poll, Closing,      │
+                                                  │                        │   Closed, ProtocolError     │
+                                                  └──Disconnected──▶ done ◀┴───────Disconnected──────────┘
+  `done` has no successor.  `Mon.accepts evs` = the automaton does not get stuck on `evs` (the list of
+  events, oldest first); `Mon.complete evs` = it ends in `done`.  The theorems hold for every
+  configuration `cfg` (timers, connect outcome, write failures, variant flags), every application
+  `react` (any calls, with any arguments, in reaction to any event history — including abandoning the
+  iterator) and every environment script `env` (any bytes with any segmentation, silence, EOF, socket
+  errors, other exceptions, selector errors).
+-/
+import Lomond.Proofs.RunAll
+
 namespace Lomond.C07
+open Lomond Lomond.Core Lomond.Core.Monitor
+
+/-- the events of a whole connection attempt, oldest first -/
+def eventsOf (cfg : Cfg) (react : React) (env : List EnvStep) : List Event :=
+  events (runAll cfg react env).trace
+
+/-- the automaton's phase after the whole connection; it is never the initial one (`Connecting` is
+    always yielded) -/
+theorem monitor_phase (cfg : Cfg) (react : React) (env : List EnvStep) :
+    ∃ ph, Mon.run .start (eventsOf cfg react env) = some ph ∧ ph ≠ .start := by
+  have h := (run_spec cfg react env).1
+  unfold eventsOf
+  rw [runAll_events, ← phaseOf_eq_run]
+  cases hr : run (initSys cfg react env) with
+  | ok u s => rw [hr] at h; exact ⟨_, h, by decide⟩
+  | err x s => rw [hr] at h; exact h
+
+/-! Non-vacuity: a concrete connection used in the examples below — a correct upgrade reply and a
+    Text frame in one read, five seconds of silence, then end-of-stream. -/
+
+/-- `HTTP/1.1 101 X\r\nUpgrade: websocket\r\nSec-WebSocket-Accept: k\r\n\r\n` -/
+def exReply : Bytes :=
+  [72, 84, 84, 80, 47, 49, 46, 49, 32, 49, 48, 49, 32, 88, 13, 10, 85, 112, 103, 114, 97, 100, 101, 58, 32, 119,
+   101, 98, 115, 111, 99, 107, 101, 116, 13, 10, 83, 101, 99, 45, 87, 101, 98, 83, 111, 99, 107, 101, 116, 45, 65,
+   99, 99, 101, 112, 116, 58, 32, 107, 13, 10, 13, 10]
+def exCfg : Cfg := { challenge := [107] }
+def exEnv : List EnvStep :=
+  [.wait 0 (some (.data (exReply ++ [0x81, 2, 104, 105]))), .wait 6 none, .wait 0 (some .eof)]
+
+/-- the model really produces a non-trivial well-formed sequence on it … -/
+example : eventsOf exCfg (fun _ => []) exEnv =
+    [.connecting, .connected false, .ready none false, .poll, .text [104, 105], .poll,
+     .disconnected "connection-lost" false] := by decide +kernel
+
+/-- … a graceful one when the application closes at the Text event and the server answers with EOF … -/
+example : eventsOf exCfg (fun h => if h.length = 5 then [.close (some 1000) (.bytes [])] else []) exEnv =
+    [.connecting, .connected false, .ready none false, .poll, .text [104, 105], .poll,
+     .disconnected "closed" true] := by decide +kernel
+
+/-- … an abandoned prefix when the application stops iterating at `Ready` (the `Abandons` case of
+    `run_outcomes`; the monitor accepts the prefix) … -/
+example : eventsOf exCfg (fun h => if h.length = 3 then [.abandon false] else []) exEnv =
+    [.connecting, .connected false, .ready none false] := by decide +kernel
+
+/-- … and an INCOMPLETE trace when the script stops with the loop still running (the third case of
+    `run_outcomes`) -/
+example : Obs.incomplete ∈ (runAll exCfg (fun _ => []) (exEnv.take 2)).trace := by decide +kernel
+
+/-- a rejected upgrade and a failed connect: the other two shapes of a complete sequence -/
+example : eventsOf exCfg (fun _ => []) [.wait 0 (some (.data [72, 84, 84, 80, 47, 49, 46, 49, 32, 53, 48, 48, 32, 88, 13, 10, 13, 10]))] =
+    [.connecting, .connected false, .rejected (Http.ofString "Websocket upgrade failed (code=500)"),
+     .disconnected "closed" true] := by decide +kernel
+example : eventsOf { connect := .socketFail } (fun _ => []) exEnv = [.connecting, .connectFail "connect-failed"] := by
+  decide +kernel
+
+/-- **The monitor never rejects.**  Whatever the server, the environment and the application do, the
+    event sequence of a connection is a prefix of a well-formed sequence. -/
+theorem monitor (cfg : Cfg) (react : React) (env : List EnvStep) : Mon.accepts (eventsOf cfg react env) := by
+  obtain ⟨ph, h, _⟩ := monitor_phase cfg react env
+  exact ⟨ph, h⟩
+
+/-- **When `run()` returns, the sequence is complete**: the automaton is in its final state. -/
+theorem monitor_complete (cfg : Cfg) (react : React) (env : List EnvStep) (s : Sys)
+    (hr : run (initSys cfg react env) = .ok () s) : Mon.complete (eventsOf cfg react env) := by
+  have h := (run_spec cfg react env).1
+  unfold Mon.complete eventsOf
+  rw [runAll_events, ← phaseOf_eq_run]
+  rw [hr] at h ⊢; exact h
+
+/-- `run()` either returns, or is abandoned by the application (`GeneratorExit`; possible only for an
+    application that does abandon), or — model artefact — runs out of environment script.  No other
+    exception leaves it (this is C09.no_escape). -/
+theorem run_outcomes (cfg : Cfg) (react : React) (env : List EnvStep) :
+    (∃ s, run (initSys cfg react env) = .ok () s) ∨
+    (∃ s, run (initSys cfg react env) = .err .genExit s ∧ Abandons react) ∨
+    (∃ s, run (initSys cfg react env) = .err .scriptEnd s) := by
+  rcases runAll_cases cfg react env with ⟨s, hr, _⟩ | ⟨s, hr, ha, _⟩ | ⟨s, hr, _⟩
+  · exact Or.inl ⟨s, hr⟩
+  · exact Or.inr (Or.inl ⟨s, hr, ha⟩)
+  · exact Or.inr (Or.inr ⟨s, hr⟩)
+
+/-- the trace is marked INCOMPLETE exactly when the environment script was exhausted with the loop
+    still running -/
+theorem incomplete_iff (cfg : Cfg) (react : React) (env : List EnvStep) :
+    Obs.incomplete ∈ (runAll cfg react env).trace ↔ ∃ s, run (initSys cfg react env) = .err .scriptEnd s := by
+  have hn := (run_spec cfg react env).2.1
+  rcases runAll_cases cfg react env with ⟨s, hr, e⟩ | ⟨s, hr, _, k⟩ | ⟨s, hr, e⟩
+  · rw [hr] at hn; rw [e, hr]
+    exact ⟨fun h => absurd h hn, fun ⟨_, h⟩ => by cases h⟩
+  · rw [hr] at hn; rw [hr]
+    exact ⟨fun h => absurd h (k.noInc hn), fun ⟨_, h⟩ => by cases h⟩
+  · rw [e]
+    exact ⟨fun _ => ⟨s, hr⟩, fun _ => List.mem_cons_self⟩
+
+/-- **Exactly one terminal event, and it is last** — unless the application abandoned the iterator or
+    the script was exhausted (trace marked INCOMPLETE). -/
+theorem complete_unless_abandoned_or_exhausted (cfg : Cfg) (react : React) (env : List EnvStep) :
+    Mon.complete (eventsOf cfg react env) ∨ Abandons react ∨ Obs.incomplete ∈ (runAll cfg react env).trace := by
+  rcases run_outcomes cfg react env with ⟨s, hr⟩ | ⟨s, _, ha⟩ | h
+  · exact Or.inl (monitor_complete cfg react env s hr)
+  · exact Or.inr (Or.inl ha)
+  · exact Or.inr (Or.inr ((incomplete_iff cfg react env).mpr h))
+
+/-! ### the clauses of the property text, read off the automaton -/
+
+/-- `Connecting` is always yielded, and it is the first event -/
+theorem first_is_connecting (cfg : Cfg) (react : React) (env : List EnvStep) :
+    ∃ r, eventsOf cfg react env = .connecting :: r := by
+  obtain ⟨ph, h, hne⟩ := monitor_phase cfg react env
+  cases he : eventsOf cfg react env with
+  | nil => rw [he] at h; cases h; exact absurd rfl hne
+  | cons e r => rw [he] at h; rw [Mon.first_is_connecting h]; exact ⟨r, rfl⟩
+
+/-- then either `ConnectFail`, and nothing else, or `Connected` -/
+theorem second_event (cfg : Cfg) (react : React) (env : List EnvStep) (e0 e1 : Event) (r : List Event)
+    (he : eventsOf cfg react env = e0 :: e1 :: r) :
+    (∃ k, e1 = .connectFail k ∧ r = []) ∨ (∃ p, e1 = .connected p) := by
+  obtain ⟨ph, h⟩ := monitor cfg react env
+  rw [he] at h; exact Mon.second_event h
+
+/-- at most one terminal event (`ConnectFail` or `Disconnected`), and nothing after it -/
+theorem at_most_one_terminal_and_last (cfg : Cfg) (react : React) (env : List EnvStep)
+    (a b : List Event) (e : Event) (he : eventsOf cfg react env = a ++ e :: b) (ht : Event.isTerminal e = true) :
+    b = [] ∧ ∀ x ∈ a, Event.isTerminal x = false := by
+  obtain ⟨ph, h⟩ := monitor cfg react env
+  rw [he] at h
+  exact ⟨Mon.nothing_after_terminal h ht, Mon.no_terminal_before_terminal h⟩
+
+/-- `ConnectFail` comes directly after `Connecting` (so never after `Connected`) and ends the sequence -/
+theorem nothing_after_connectFail (cfg : Cfg) (react : React) (env : List EnvStep)
+    (a b : List Event) (k : String) (he : eventsOf cfg react env = a ++ .connectFail k :: b) :
+    a = [.connecting] ∧ b = [] := by
+  obtain ⟨ph, h⟩ := monitor cfg react env
+  rw [he] at h; exact Mon.connectFail_position h
+
+/-- `Ready` occurs at most once, and only after `Connected` -/
+theorem ready_at_most_once (cfg : Cfg) (react : React) (env : List EnvStep)
+    (a b : List Event) (x : Option Http.Str) (d : Bool) (he : eventsOf cfg react env = a ++ .ready x d :: b) :
+    (∃ p, Event.connected p ∈ a) ∧ (∀ x' d', Event.ready x' d' ∉ a) ∧ (∀ x' d', Event.ready x' d' ∉ b) := by
+  obtain ⟨ph, h⟩ := monitor cfg react env
+  rw [he] at h; exact Mon.ready_once h
+
+/-- `Text`, `Binary`, `Ping`, `Pong`, `Poll`, `Closing`, `Closed` (and `Unresponsive`) occur only after `Ready` -/
+theorem messages_only_after_ready (cfg : Cfg) (react : React) (env : List EnvStep)
+    (a b : List Event) (e : Event) (he : eventsOf cfg react env = a ++ e :: b) (hn : Event.needsReady e = true) :
+    ∃ x d, Event.ready x d ∈ a := by
+  obtain ⟨ph, h⟩ := monitor cfg react env
+  rw [he] at h; exact Mon.needsReady_after_ready h hn
+
+/-- in particular `Poll` -/
+theorem poll_only_after_ready (cfg : Cfg) (react : React) (env : List EnvStep)
+    (a b : List Event) (he : eventsOf cfg react env = a ++ .poll :: b) : ∃ x d, Event.ready x d ∈ a :=
+  messages_only_after_ready cfg react env a b .poll he rfl
+
+/-- **a time-out terminates the iteration**: after `Unresponsive` (the ping time-out fired) nothing
+    but the terminal `Disconnected` is yielded — whatever else is in the read being processed, in the
+    rest of the script, and whatever the application does in reaction to `Unresponsive` -/
+theorem timeout_terminates (cfg : Cfg) (react : React) (env : List EnvStep)
+    (a b : List Event) (he : eventsOf cfg react env = a ++ .unresponsive :: b) :
+    b = [] ∨ ∃ k g, b = [.disconnected k g] := by
+  obtain ⟨ph, h⟩ := monitor cfg react env
+  rw [he] at h; exact Mon.after_unresponsive h
+
+/-- when `run()` returns there is exactly one terminal event and it is the last event -/
+theorem exactly_one_terminal_last (cfg : Cfg) (react : React) (env : List EnvStep) (s : Sys)
+    (hr : run (initSys cfg react env) = .ok () s) :
+    ∃ a e, eventsOf cfg react env = a ++ [e] ∧ Event.isTerminal e = true ∧ ∀ x ∈ a, Event.isTerminal x = false :=
+  Mon.complete_ends_terminal (monitor_complete cfg react env s hr)
+
+/-! ### termination -/
+
+/-- non-vacuity for the two termination theorems: EOF in the middle of a script (what follows, even a
+    correct reply, is never looked at), and a ping time-out that ends the loop before the script does -/
+example : (runAll exCfg (fun _ => []) (exEnv ++ [.wait 0 (some (.data exReply))])).trace =
+    (runAll exCfg (fun _ => []) exEnv).trace := by decide +kernel
+example : eventsOf { exCfg with pingTimeout := 3 } (fun _ => []) (exEnv.take 2 ++ [.wait 1 none, .wait 1 none]) =
+    [.connecting, .connected false, .ready none false, .poll, .text [104, 105], .poll, .unresponsive,
+     .disconnected "ping-timeout" false] := by decide +kernel
+
+/-- **Once the transport has ended the iteration ends.**  `X` is an end-of-stream, a socket error or
+    any other exception from `recv`, or an exception from `selector.wait`.  Whatever the script `post`
+    says would happen afterwards is never consumed: the connection over `pre ++ X :: post` is the
+    connection over `pre ++ [X]` (all fields of the final state, in particular the trace; only the
+    stored script itself differs); its trace is not marked INCOMPLETE; and unless the application
+    abandons the iterator `run()` returns, so the event sequence is complete (exactly one terminal
+    event, last). -/
+theorem terminates_after_transport_end (cfg : Cfg) (react : React) (pre post : List EnvStep) (X : EnvStep)
+    (hX : EnvStep.isEnd X = true) :
+    runAll cfg react (pre ++ X :: post) = { runAll cfg react (pre ++ [X]) with env := pre ++ X :: post } ∧
+    Obs.incomplete ∉ (runAll cfg react (pre ++ X :: post)).trace ∧
+    (Mon.complete (eventsOf cfg react (pre ++ X :: post)) ∨ Abandons react) := by
+  have hrun := run_pre_end pre X hX post (initSys cfg react [])
+  have e1 : setEnv (pre ++ X :: post) (initSys cfg react []) = initSys cfg react (pre ++ X :: post) := rfl
+  have e2 : setEnv (pre ++ [X]) (initSys cfg react []) = initSys cfg react (pre ++ [X]) := rfl
+  rw [e1, e2] at hrun
+  have hcases := run_end_cases pre X hX (initSys cfg react (pre ++ [X])) rfl
+  have hEq : runAll cfg react (pre ++ X :: post) = setEnv (pre ++ X :: post) (runAll cfg react (pre ++ [X])) := by
+    rcases hcases with ⟨s', h2⟩ | ⟨s', h2, _⟩
+    · have h1 : run (initSys cfg react (pre ++ X :: post)) = .ok () (setEnv (pre ++ X :: post) s') := by
+        rw [hrun, h2]; rfl
+      rcases runAll_cases cfg react (pre ++ X :: post) with ⟨t, ht, et⟩ | ⟨t, ht, _⟩ | ⟨t, ht, _⟩
+      · rcases runAll_cases cfg react (pre ++ [X]) with ⟨t2, ht2, et2⟩ | ⟨t2, ht2, _⟩ | ⟨t2, ht2, _⟩
+        · rw [et, et2]; rw [h1] at ht; rw [h2] at ht2; cases ht; cases ht2; rfl
+        · rw [h2] at ht2; cases ht2
+        · rw [h2] at ht2; cases ht2
+      · rw [h1] at ht; cases ht
+      · rw [h1] at ht; cases ht
+    · have h1 : run (initSys cfg react (pre ++ X :: post)) = .err .genExit (setEnv (pre ++ X :: post) s') := by
+        rw [hrun, h2]; rfl
+      show (match run (initSys cfg react (pre ++ X :: post)) with
+        | .ok _ s => s
+        | .err .genExit s => if s.abandonedWith then (match closeSocket s with | .ok _ s' => s' | .err _ s' => s') else s
+        | .err (.outer .genExit) s => if s.abandonedWith then (match closeSocket s with | .ok _ s' => s' | .err _ s' => s') else s
+        | .err .scriptEnd s => { s with trace := .incomplete :: s.trace }
+        | .err _ s => { s with trace := .incomplete :: s.trace }) =
+        setEnv (pre ++ X :: post) (match run (initSys cfg react (pre ++ [X])) with
+        | .ok _ s => s
+        | .err .genExit s => if s.abandonedWith then (match closeSocket s with | .ok _ s' => s' | .err _ s' => s') else s
+        | .err (.outer .genExit) s => if s.abandonedWith then (match closeSocket s with | .ok _ s' => s' | .err _ s' => s') else s
+        | .err .scriptEnd s => { s with trace := .incomplete :: s.trace }
+        | .err _ s => { s with trace := .incomplete :: s.trace })
+      rw [h1, h2]
+      simp only []
+      have ha : (setEnv (pre ++ X :: post) s').abandonedWith = s'.abandonedWith := rfl
+      rw [ha]
+      split
+      · rw [mon_ei_closeSocket (pre ++ X :: post) s']
+        cases closeSocket s' <;> rfl
+      · rfl
+  have hInc : Obs.incomplete ∉ (runAll cfg react (pre ++ [X])).trace := by
+    rw [incomplete_iff]
+    rintro ⟨s, hs⟩
+    rcases hcases with ⟨s', h2⟩ | ⟨s', h2, _⟩
+    · rw [h2] at hs; cases hs
+    · rw [h2] at hs; cases hs
+  refine ⟨hEq, ?_, ?_⟩
+  · rw [hEq]; exact hInc
+  · have hev : eventsOf cfg react (pre ++ X :: post) = eventsOf cfg react (pre ++ [X]) := by
+      unfold eventsOf; rw [hEq]; rfl
+    rw [hev]
+    rcases hcases with ⟨s', h2⟩ | ⟨s', _, ha⟩
+    · exact Or.inl (monitor_complete cfg react _ s' h2)
+    · exact Or.inr ha
+
+/-- **Once the loop has ended, for whatever reason, nothing more is consumed** — this covers the
+    time-outs: a ping time-out (`Unresponsive`) or a close time-out raises inside the loop and ends it.
+    If the connection over the script `pre` is not marked INCOMPLETE, then extending the script
+    changes nothing (up to the stored script itself). -/
+theorem terminates_once_loop_ended (cfg : Cfg) (react : React) (pre post : List EnvStep)
+    (h : Obs.incomplete ∉ (runAll cfg react pre).trace) :
+    runAll cfg react (pre ++ post) = { runAll cfg react pre with env := pre ++ post } := by
+  have hne : ∀ s, run (initSys cfg react pre) ≠ .err .scriptEnd s := by
+    intro s hs; exact h ((incomplete_iff cfg react pre).mpr ⟨s, hs⟩)
+  -- the two loops agree wherever the shorter one does not run out of script
+  have hag : ∀ s1, loop (pre ++ post) s1 = loop pre s1 ∨ ∃ s', loop pre s1 = .err .scriptEnd s' := by
+    intro s1
+    by_cases hx : ∃ s', loop pre s1 = .err .scriptEnd s'
+    · exact Or.inr hx
+    · exact Or.inl (loop_prefix pre post s1 (fun s' hs => hx ⟨s', hs⟩))
+  have hrun : run (initSys cfg react (pre ++ post)) = Res.mapS (setEnv (pre ++ post)) (run (initSys cfg react pre)) := by
+    rw [run_eq_runL, run_eq_runL]
+    show runL (loop (pre ++ post)) (setEnv (pre ++ post) (initSys cfg react pre)) = _
+    rw [ei_runL (ei_loop _) (pre ++ post) (initSys cfg react pre)]
+    rcases runL_agree (loop (pre ++ post)) (loop pre) (initSys cfg react pre) hag with e | ⟨s', hs'⟩
+    · rw [e]; rfl
+    · exact absurd (by rw [run_eq_runL]; exact hs') (hne s')
+  show (match run (initSys cfg react (pre ++ post)) with
+    | .ok _ s => s
+    | .err .genExit s => if s.abandonedWith then (match closeSocket s with | .ok _ s' => s' | .err _ s' => s') else s
+    | .err (.outer .genExit) s => if s.abandonedWith then (match closeSocket s with | .ok _ s' => s' | .err _ s' => s') else s
+    | .err .scriptEnd s => { s with trace := .incomplete :: s.trace }
+    | .err _ s => { s with trace := .incomplete :: s.trace }) =
+    setEnv (pre ++ post) (match run (initSys cfg react pre) with
+    | .ok _ s => s
+    | .err .genExit s => if s.abandonedWith then (match closeSocket s with | .ok _ s' => s' | .err _ s' => s') else s
+    | .err (.outer .genExit) s => if s.abandonedWith then (match closeSocket s with | .ok _ s' => s' | .err _ s' => s') else s
+    | .err .scriptEnd s => { s with trace := .incomplete :: s.trace }
+    | .err _ s => { s with trace := .incomplete :: s.trace })
+  rw [hrun]
+  rcases run_outcomes cfg react pre with ⟨s, hs⟩ | ⟨s, hs, _⟩ | ⟨s, hs⟩
+  · rw [hs]; rfl
+  · rw [hs]
+    simp only [Res.mapS_err]
+    have ha : (setEnv (pre ++ post) s).abandonedWith = s.abandonedWith := rfl
+    rw [ha]
+    split
+    · rw [mon_ei_closeSocket (pre ++ post) s]
+      cases closeSocket s <;> rfl
+    · rfl
+  · exact absurd hs (hne s)
+
 end Lomond.C07
